@@ -178,14 +178,39 @@ Fixpoint match_para (fuel : nat) (at_edge : bool) (e : list (N * ekind)) (o : li
 
 End Match.
 
+(* soft hyphens (U+00AD; `hyphens: manual`, the initial value): a conditional hyphen is not a
+   character of the text: it shows nothing unless the line is broken there, and then the
+   hyphenate-character (initial value "-") is shown at the end of that line.  So the soft
+   hyphens are removed on both sides, together with a "-" that directly follows a soft hyphen
+   and ends its line (the generator never writes "-" after a soft hyphen); every other
+   character of a hyphenated word must still be there exactly once, in order. *)
+Definition SHY : N := 173.
+Definition HYPHEN : N := 45.
+
+Fixpoint strip_shy (l : list N) : list N :=
+  match l with
+  | [] => []
+  | c :: r =>
+      if N.eqb c SHY then
+        match r with
+        | [h] => if N.eqb h HYPHEN then [] else strip_shy r
+        | _ => strip_shy r
+        end
+      else c :: strip_shy r
+  end.
+
+Definition drop_shy (e : list (N * ekind)) : list (N * ekind) :=
+  filter (fun p => negb (N.eqb (fst p) SHY)) e.
+
 (* 0 = the lines carry the text; 8 = only if a collapsible space may vanish inside a line;
    9 = only if a preserved line feed / <br> may fail to break the line; 3 = otherwise *)
 Definition check_para (src : inl) (lines : list (list N)) : N :=
-  let e := expected src in
-  let o := observed lines in
+  let e := drop_shy (expected src) in
+  let ea := drop_shy (expected_atoms src) in
+  let o := observed (map strip_shy lines) in
   let fuel := S (length e + length o) in
   if match_para false false false fuel true e o then 0%N
-  else if match_para false false true (fuel + length (expected_atoms src)) true (expected_atoms src) o then 0%N
+  else if match_para false false true (fuel + length ea) true ea o then 0%N
   else if match_para true false false fuel true e o then 8%N
   else if match_para false true false fuel true e o then 9%N
   else 3%N.
